@@ -240,7 +240,7 @@ class ContractRun:
                 args.append(PtrVal(o.id))
                 struct_params.append((name, o, sspec, fs, sname))
             elif ty['k'] == 'ptr':
-                ext = spec.extents.get(name)
+                ext = spec.extents.get(name, spec.extents.get('arg%d' % n))
                 o = st.new_obj('param', None, name, {'desc': 'buffer %s' % name})
                 args.append(PtrVal(o.id))
                 struct_params.append((name, o, None, {'__ext__': ext}, None))
@@ -252,6 +252,7 @@ class ContractRun:
                     x = st.fresh_int(ty['bits'], signed, name)
                     args.append(x)
                     env.bind(name, x.s if signed else x.u)
+                    env.bind('arg%d' % n, x.s if signed else x.u)
             else:
                 args.append(interp.top_of_type(st, ty, name))
         # extents of plain pointer params (may mention scalar params)
